@@ -488,7 +488,7 @@ def c17(tier, seed):
     facts.load("K1")
     jobs = [(check_blake.c04_update, ("K1",)), (check_skein.c05_process_block, ("K1",)), (check_skein.c05_update, ("K1",)),
             (check_groestl.c07_update, ("K1",)), (check_jh.c06_update, ("K1",))]
-    edge = _edge_positions()
+    edge = _edge_positions() if tier == "quick" else _range_fn(0, 10 ** 9)      # thorough: every buffer position
     for name in check_blake.VARIANTS:
         jobs.append((check_blake.c04_finalize, ("K1", edge, name)))
     for name in check_groestl.HASHERS:
@@ -497,7 +497,7 @@ def c17(tier, seed):
         jobs.append((check_jh.c06_finalize, ("K1", name, edge)))
     par.run(r, jobs)
     check_static.c17_structural(r)
-    r.floor("counter rule instances", len(r.holds) + len(r.violations), 280)
+    r.floor("counter rule instances", len(r.holds) + len(r.violations), 280 if tier == "quick" else 1200)
     r.assumptions = ["the per-block functions are uninterpreted here; C04-C07 decide them for symbolic counter inputs, so exact counters imply conforming digests of long messages",
                      "format limits: BLAKE t.1 overflow (2^64 / 2^128 bits), Skein 2^64 bytes, Groestl 2^64 blocks, JH 2^61 bytes are outside the domain"]
     return r.finish(
@@ -526,11 +526,11 @@ def c08(tier, seed):
     hs = check_hashapi.hashers(f)
     jobs = [(check_hashapi.c08_shape, ("K1",)), (check_hashapi.c08_clone_reset, ("K1",))]
     for t, fam, bb in hs:
-        jobs.append((check_hashapi.c08_chunking, ("K1", t)))
+        jobs.append((check_hashapi.c08_chunking, ("K1", t, tier == "thorough")))
     rets = par.run(r, jobs)
     nchunk = sum(x for (fn, _), x in zip(jobs, rets) if fn is check_hashapi.c08_chunking and x)
     r.floor("hasher types (12 + Skein instantiations)", len(hs), 30)
-    r.floor("chunking compositions", nchunk, 108 * 30)
+    r.floor("chunking compositions", nchunk, (108 if tier == "quick" else 405) * 30)
     ok, err = check_static.build_witness()
     if ok:
         r.ok("R8.4", "Clone + Default witnesses for the 15 hash types compile")
